@@ -5,7 +5,7 @@ U = ["mptcore/event/%s.c" % f for f in "dispatch_emit dispatch_set dispatch_fini
     "mptcore/message/message_read.c", "mptcore/array/array_insert.c", "mptcore/array/buffer_insert.c", "mptcore/array/array_clone.c",
     "mptcore/array/buffer_alloc.c", "mptcore/array/buffer_set.c", "mptcore/misc/refcount.c"]
 FP = [(r"cmd\)\(|\.cmd\)|_err\.cmd", ["h_event"]), (r"convertable", ["h_none"]), (r"\bfini\b|\.fini\)", ["_command_fini"]), (r"\binit\b|\.init\)", ["_command_init"])] + BUF_FP
-OPS = ["SET", "CLEAR", "EMIT_ID", "EMIT_MSG", "EMIT_DEFAULT", "FINI"]
+OPS = ["SET", "CLEAR", "EMIT_ID", "EMIT_MSG", "EMIT_DEFAULT", "FINI", "REPLACE"]
 
 
 def queries(tier):
